@@ -145,3 +145,12 @@ Proof.
   intros Hfull. destruct max_with_sources_refuted as (e & a & He & Ho & Hal & Hn & _ & Hneg).
   apply Hneg. apply Hfull; auto.
 Qed.
+
+(* a source the reader did not discover: returned when no source_ids are given, not returned when requested by id *)
+Definition llog : list DLmsg := [p1msg 0 POSE 0 11; p1msg 1 POSE 0 12; p1msg 2 POSE 5 13]%N%Z.
+Definition lenv : env := concrete_env llog [0%N] [(tr_all, [0; 1; 2]%N)] [0; 1; 2]%N.
+Example undiscovered_source_instances :
+  ords_of (fresh lenv (call [POSE])) POSE = Some [0; 1; 2]%N /\
+  ords_of (fresh lenv (with_src [0; 5]%N (call [POSE]))) POSE = Some [0; 1]%N /\
+  map m_ord (spec_messages lenv (with_src [0; 5]%N (call [POSE])) true) = [0; 1; 2]%N.
+Proof. vm_compute. repeat split; reflexivity. Qed.
